@@ -21,7 +21,9 @@ func validate(conf *heartbeatConfig) heartbeatConfig {
 		c.Interval = defaultConfig.Interval
 	}
 
-	if c.Heartbeat == nil {
+	// An empty payload is as unusable as none: every failed read of the stream
+	// (n == 0) would compare equal to it and be taken for a heartbeat.
+	if len(c.Heartbeat) == 0 {
 		c.Heartbeat = defaultConfig.Heartbeat
 	}
 
